@@ -169,3 +169,166 @@ Proof.
   intros p s n Q EE Hinv Hch HQ. unfold MD. apply md_rev_nf; [exact Hinv | rewrite rev_involutive; exact Hch |].
   rewrite rev_involutive. exact HQ.
 Qed.
+
+(* ------------------------------------------------------------------ from nfwp to the outcome of the run *)
+Definition TrueQ : npost := fun _ _ => True.
+
+Lemma nf_norm : forall (p : P) s, nfwp p TrueQ NoExn s 0 -> snd (machine_run no_fault p (start s)) = ONorm.
+Proof.
+  intros p s H. pose proof (nfwp_sound p TrueQ NoExn s 0 H 0%nat []) as Hs. unfold nf_result, start in *.
+  destruct (snd (machine_run no_fault p (Cfg 0 0 s []))); [reflexivity | contradiction | contradiction].
+Qed.
+
+(* no temp directory is left in the tree (what a fault-free history leaves behind) *)
+Definition tmp_free (s : fs) : Prop := forall q k, look s (q ++ [Tmp k]) = None.
+
+Lemma md_existing_nf : forall p s n (Q : npost) EE, look s p = Some D -> Q s n -> nfwp (MD p) Q EE s n.
+Proof.
+  intros p s n Q EE Hp HQ. unfold MD. destruct (path_snoc_cases p) as [-> | [q [x ->]]]; [exact HQ|].
+  rewrite rev_app_distr. cbn [rev app md_rev nfwp]. rewrite rev_involutive. rewrite Hp. exact HQ.
+Qed.
+
+Lemma closed_parent_dir : forall s p x, closed s -> look s (p ++ [x]) <> None -> look s p = Some D.
+Proof. intros s p x [_ H] Hl. apply (H p x). exact Hl. Qed.
+
+(* one level of _makedirs_synced: the path is free or already a directory, its parent exists *)
+Lemma mkdir_progress : forall lay p s0, p <> [] -> fs_inv_weak s0 -> look s0 (parent p) = Some D ->
+  (look s0 p = None \/ look s0 p = Some D) ->
+  snd (machine_run no_fault (unit_prog lay (UMkdir p)) (start s0)) = ONorm.
+Proof.
+  intros lay p s0 Hne Hinv Hpar Hp. apply nf_norm. cbn [unit_prog]. unfold mkdir_synced. cbn [nfwp].
+  destruct Hp as [Hp | Hp]; rewrite Hp; [|exact I]. unfold Do, fsyncD. cbn [nfwp].
+  rewrite (mkdir_ok s0 p Hne Hp Hpar). cbn [nfwp].
+  assert (L : look (upd p (Some D) s0) (parent p) = Some D).
+  { cbn [look upd]. destruct (path_eqb (parent p) p); [reflexivity | exact Hpar]. }
+  rewrite (fsyncD_ok _ _ L). exact I.
+Qed.
+
+(* set_meta: the collection exists, no temp residue in it, the props path is not a directory *)
+Lemma set_meta_progress : forall lay c pv s0, c <> [] -> fs_inv_weak s0 -> look s0 c = Some D ->
+  look s0 (c ++ [Tmp 0]) = None -> look s0 (c ++ [Props]) <> Some D ->
+  snd (machine_run no_fault (unit_prog lay (USetMeta c pv)) (start s0)) = ONorm.
+Proof.
+  intros lay c pv s0 Hne Hinv Hc Hf Hp. apply nf_norm. cbn [unit_prog]. unfold set_meta. cbn [nfwp].
+  apply aw_nf; auto; [discriminate|]. intros; exact I.
+Qed.
+
+(* delete of a collection: it exists, its parent has no temp residue *)
+Lemma delete_coll_progress : forall lay par x s0, fs_inv_weak s0 -> look s0 (par ++ [x]) = Some D ->
+  look s0 (par ++ [Tmp 0]) = None -> x <> Tmp 0 ->
+  snd (machine_run no_fault (unit_prog lay (UDeleteColl (par ++ [x]))) (start s0)) = ONorm.
+Proof.
+  intros lay par x s0 Hinv Hc Hf Hx. apply nf_norm. cbn [unit_prog]. unfold delete_coll. cbn [nfwp].
+  set (c := par ++ [x]) in *.
+  assert (Hpar : look s0 par = Some D) by (apply (closed_parent_dir s0 par x); [apply Hinv | fold c; rewrite Hc; discriminate]).
+  assert (Hpc : parent c = par) by apply parent_snoc.
+  destruct (apply (Rmdir c) s0) as [s1 | e] eqn:Ermdir.
+  - (* the directory was empty *)
+    unfold fsyncD. cbn [nfwp]. rewrite Hpc.
+    assert (L : look s1 par = Some D).
+    { cbn [apply] in Ermdir. inv_apply Ermdir. subst s1. cbn [look upd].
+      destruct (path_eqb par c) eqn:Epc; [apply path_eqb_eq in Epc; unfold c in Epc; apply snoc_neq_self in Epc; contradiction | exact Hpar]. }
+    rewrite (fsyncD_ok _ _ L). exact I.
+  - (* rename into a temp directory, sync, remove *)
+    unfold with_tmp, Finally, Do, fsyncD. cbn [nfwp]. rewrite Hpc. set (t0 := par ++ [Tmp 0]).
+    assert (C1 : apply (Mkdir t0) s0 = inl (upd t0 (Some D) s0)).
+    { apply mkdir_ok; [apply snoc_not_nil | exact Hf | unfold t0; rewrite parent_snoc; exact Hpar]. }
+    rewrite C1. set (s1 := upd t0 (Some D) s0). assert (I1 : fs_inv_weak s1) by apply (apply_inv _ _ _ Hinv C1).
+    set (b := t0 ++ [last_name c]).
+    assert (Hct0 : path_eqb c t0 = false) by (unfold c, t0; apply path_eqb_snoc_diff; exact Hx).
+    assert (C2 : apply (Rename c b) s1 = inl (renamed c b s1)).
+    { apply rename_dir_ok; [apply snoc_not_nil | apply snoc_not_nil | | | |].
+      - unfold b, c, t0. rewrite <- app_assoc. apply prefix_snoc_diff. exact Hx.
+      - unfold b. rewrite parent_snoc. unfold s1. cbn [look upd]. rewrite path_eqb_refl. reflexivity.
+      - unfold s1. cbn [look upd]. rewrite Hct0. exact Hc.
+      - unfold s1. cbn [look upd]. destruct (path_eqb b t0) eqn:E; [apply path_eqb_eq in E; unfold b in E; symmetry in E; apply snoc_neq_self in E; contradiction|].
+        unfold b. apply closed_below; [apply Hinv | unfold t0; rewrite Hf; discriminate | discriminate]. }
+    rewrite C2. set (s2 := renamed c b s1). assert (I2 : fs_inv_weak s2) by apply (apply_inv _ _ _ I1 C2).
+    assert (Hbpar : prefix b par = false).
+    { destruct (prefix b par) eqn:E; [|reflexivity]. apply prefix_length in E. unfold b, t0 in E. rewrite !app_length in E. cbn in E. lia. }
+    assert (Hcpar : prefix c par = false) by (unfold c; apply prefix_snoc_self_false).
+    assert (L2 : look s2 par = Some D).
+    { unfold s2, renamed. cbn [look]. rewrite Hbpar, Hcpar. unfold s1. cbn [look upd].
+      destruct (path_eqb par t0) eqn:E; [reflexivity | exact Hpar]. }
+    rewrite (fsyncD_ok _ _ L2).
+    assert (L2t : look s2 t0 = Some D).
+    { unfold s2, renamed. cbn [look]. unfold b at 1. rewrite prefix_snoc_self_false.
+      assert (X : prefix c t0 = false) by (unfold c, t0; rewrite <- (app_nil_r (par ++ [Tmp 0])), <- app_assoc; apply prefix_snoc_diff; exact Hx).
+      rewrite X. unfold s1. cbn [look upd]. rewrite path_eqb_refl. reflexivity. }
+    rewrite (rmtree_ok s2 t0 (snoc_not_nil _ _) L2t). exact I.
+Qed.
+
+(* create_collection with props and no items (MKCALENDAR, MKCOL with props): the parent exists and holds no
+   temp residue; the target may exist (Exchange) or not (Rename) *)
+Lemma create_progress : forall lay par x pv s0, fs_inv_weak s0 -> look s0 par = Some D -> par <> [] ->
+  look s0 (par ++ [Tmp 0]) = None -> x <> Tmp 0 ->
+  snd (machine_run no_fault (unit_prog lay (UCreate (par ++ [x]) None pv)) (start s0)) = ONorm.
+Proof.
+  intros lay par x pv s0 Hinv Hpar Hparne Hf Hx. apply nf_norm. cbn [unit_prog]. unfold create_collection, create_collection_gen.
+  rewrite parent_snoc. cbn [nfwp]. apply md_existing_nf; [exact Hpar|]. cbn [nfwp]. unfold with_tmp, Finally, Do. cbn [nfwp seqs].
+  set (p := par ++ [x]). set (t0 := par ++ [Tmp 0]). set (tc := t0 ++ [n_collection]).
+  assert (Hunder : forall r, r <> [] -> look s0 (t0 ++ r) = None).
+  { intros r Hr. apply closed_below; [apply Hinv | unfold t0; rewrite Hf; discriminate | exact Hr]. }
+  assert (Hpt0 : forall r, prefix t0 (p ++ r) = false).
+  { intro r. unfold t0, p. rewrite <- app_assoc. cbn [app]. apply prefix_snoc_diff. congruence. }
+  assert (C1 : apply (Mkdir t0) s0 = inl (upd t0 (Some D) s0)).
+  { apply mkdir_ok; [apply snoc_not_nil | exact Hf | unfold t0; rewrite parent_snoc; exact Hpar]. }
+  rewrite C1. set (s1 := upd t0 (Some D) s0). assert (I1 : fs_inv_weak s1) by apply (apply_inv _ _ _ Hinv C1).
+  assert (Htct0 : path_eqb tc t0 = false) by (apply path_eqb_neq; unfold tc; intro E; symmetry in E; apply snoc_neq_self in E; exact E).
+  assert (C2 : apply (Mkdir tc) s1 = inl (upd tc (Some D) s1)).
+  { apply mkdir_ok; [apply snoc_not_nil | | unfold tc; rewrite parent_snoc; unfold s1; cbn [look upd]; rewrite path_eqb_refl; reflexivity].
+    unfold s1. cbn [look upd]. rewrite Htct0. unfold tc. apply Hunder. discriminate. }
+  rewrite C2. set (s2 := upd tc (Some D) s1). assert (I2 : fs_inv_weak s2) by apply (apply_inv _ _ _ I1 C2).
+  assert (L2 : forall q, path_eqb q tc = false -> path_eqb q t0 = false -> look s2 q = look s0 q).
+  { intros q E1 E2. unfold s2, s1. cbn [look upd]. rewrite E1, E2. reflexivity. }
+  assert (Hlen : forall (a : path) r, r <> [] -> path_eqb (a ++ r) a = false).
+  { intros a r Hr. apply path_eqb_neq. intro E. apply (f_equal (@List.length name)) in E. rewrite app_length in E. destruct r; [congruence | cbn in E; lia]. }
+  (* set_meta into the staging collection *)
+  unfold set_meta. cbn [nfwp].
+  apply aw_nf; [exact I2 | apply snoc_not_nil | unfold s2; cbn [look upd]; rewrite path_eqb_refl; reflexivity | | | discriminate |].
+  { rewrite L2; [| apply Hlen; discriminate | unfold tc; rewrite <- app_assoc; apply Hlen; discriminate].
+    unfold tc. rewrite <- app_assoc. apply Hunder. discriminate. }
+  { rewrite L2; [| apply Hlen; discriminate | unfold tc; rewrite <- app_assoc; apply Hlen; discriminate].
+    unfold tc. rewrite <- app_assoc. rewrite Hunder; discriminate. }
+  intros s3 I3 U3. cbn [nfwp].
+  assert (L3 : forall q, prefix t0 q = false -> look s3 q = look s0 q).
+  { intros q Hq. rewrite (U3 q).
+    assert (E0 : path_eqb q (tc ++ [Props]) = false).
+    { apply path_eqb_neq. intros ->. unfold tc in Hq. rewrite <- app_assoc, prefix_app in Hq. discriminate. }
+    rewrite E0. apply L2; apply path_eqb_neq; intros ->; [unfold tc in Hq; rewrite prefix_app in Hq | rewrite prefix_refl in Hq]; discriminate. }
+  assert (L3tc : look s3 tc = Some D).
+  { rewrite (U3 tc). rewrite (path_eqb_sym tc (tc ++ [Props])), Hlen; [|discriminate]. unfold s2. cbn [look upd]. rewrite path_eqb_refl. reflexivity. }
+  assert (L3t0 : look s3 t0 = Some D).
+  { rewrite (U3 t0). assert (E0 : path_eqb t0 (tc ++ [Props]) = false).
+    { unfold tc. rewrite <- app_assoc, path_eqb_sym. apply Hlen. discriminate. }
+    rewrite E0. unfold s2, s1. cbn [look upd]. rewrite (path_eqb_sym t0 tc), Htct0, path_eqb_refl. reflexivity. }
+  assert (Hp0 : prefix t0 p = false) by (rewrite <- (app_nil_r p); apply Hpt0).
+  assert (Hpar0 : prefix t0 par = false) by (unfold t0; apply prefix_snoc_self_false).
+  assert (Htcp : prefix tc p = false).
+  { destruct (prefix tc p) eqn:E; [|reflexivity]. rewrite (prefix_trans t0 tc p) in Hp0; [discriminate | unfold tc; apply prefix_app | exact E]. }
+  assert (Hptc : prefix p tc = false).
+  { unfold p, tc, t0. rewrite <- app_assoc. cbn [app]. apply prefix_snoc_diff. exact Hx. }
+  assert (Hp_par : prefix p par = false) by (unfold p; apply prefix_snoc_self_false).
+  assert (Htc_par : prefix tc par = false).
+  { destruct (prefix tc par) eqn:E; [|reflexivity]. rewrite (prefix_trans t0 tc par) in Hpar0; [discriminate | unfold tc; apply prefix_app | exact E]. }
+  assert (Hp_t0 : prefix p t0 = false).
+  { unfold p, t0. rewrite <- (app_nil_r (par ++ [Tmp 0])), <- app_assoc. apply prefix_snoc_diff. exact Hx. }
+  assert (Htc_t0 : prefix tc t0 = false) by (unfold tc; apply prefix_snoc_self_false).
+  rewrite (L3 p Hp0). unfold fsyncD.
+  destruct (look s0 p) as [np|] eqn:Elp; cbn [nfwp].
+  - (* the target exists: exchange *)
+    destruct (exchange_ok s3 tc p D np) as [s4 [C4 L4]]; [apply snoc_not_nil | apply snoc_not_nil | exact Htcp | exact Hptc | exact L3tc | rewrite (L3 p Hp0); exact Elp|].
+    rewrite C4. cbn [nfwp].
+    assert (L4par : look s4 par = Some D) by (rewrite L4, Hp_par, Htc_par, (L3 par Hpar0); exact Hpar).
+    rewrite (fsyncD_ok _ _ L4par). cbn [nfwp].
+    assert (L4t0 : look s4 t0 = Some D) by (rewrite L4, Hp_t0, Htc_t0; exact L3t0).
+    rewrite (rmtree_ok s4 t0 (snoc_not_nil _ _) L4t0). exact I.
+  - (* the target is free: rename *)
+    assert (C4 : apply (Rename tc p) s3 = inl (renamed tc p s3)).
+    { apply rename_dir_ok; [apply snoc_not_nil | apply snoc_not_nil | exact Htcp | unfold p; rewrite parent_snoc, (L3 par Hpar0); exact Hpar | exact L3tc | rewrite (L3 p Hp0); exact Elp]. }
+    rewrite C4. cbn [nfwp]. set (s4 := renamed tc p s3).
+    assert (L4par : look s4 par = Some D) by (unfold s4, renamed; cbn [look]; rewrite Hp_par, Htc_par, (L3 par Hpar0); exact Hpar).
+    rewrite (fsyncD_ok _ _ L4par). cbn [nfwp].
+    assert (L4t0 : look s4 t0 = Some D) by (unfold s4, renamed; cbn [look]; rewrite Hp_t0, Htc_t0; exact L3t0).
+    rewrite (rmtree_ok s4 t0 (snoc_not_nil _ _) L4t0). exact I.
+Qed.
